@@ -69,6 +69,15 @@ def sources(tier, seed, ctx):
                 srcs.append({'fn': 'generate_sum_n_bits', 'n': n, 'basis': k, 'spelled': rng.choice(SPELL[k]), 'big': big})
                 srcs.append({'fn': 'add_sum_n_bits', 'n': n, 'basis': k, 'spelled': rng.choice(SPELL[k]), 'big': big,
                              'host': {'seed': rng.randrange(10**6), 'ni': rng.randint(2, 4), 'ng': rng.randint(2, 6)} if n % 2 else None})
+    # operand NAMES are the caller's: sets of names that become ambiguous once joined with '_' ((u_u, v) and (u, u_v) both
+    # spell u_u_v), in every order, for the bit counters (whatever the library keys on names must tell them apart)
+    for names in (['u_v', 'u', 'v', 'u_u'], ['s_1', 'p', '1', 'p_s'], ['a', 'a_b', 'b_a', 'b', 'a_b_a']):
+        perms = list(itertools.permutations(names))
+        rng.shuffle(perms)
+        for j, perm in enumerate(perms[:24 if tier == 'quick' else 120]):
+            k = ('XAIG', 'AIG')[j % 2]
+            srcs.append({'fn': 'add_sum_n_bits' if j % 3 else 'add_sum_n_bits_easy', 'n': len(perm), 'basis': k, 'spelled': SPELL[k][0], 'big': False,
+                         'host': {'oplabels': list(perm)}})
     # the exported building blocks: the ~5n bit counter and the half / full adder cells
     for n in range(1, (8 if tier == 'quick' else 11) + 1):
         for big in (False, True):
@@ -137,7 +146,7 @@ def probes():
             {'fn': 'add_wsum_efficient', 'weights': [0, 0], 'basis': 'AIG', 'spelled': 'AIG', 'host': None, 'probe': 'weighted-sum-string-basis'}]
 
 
-def record(src):
+def _record(src):
     from cirbo.synthesis.generation import arithmetics as ar
 
     rng = random.Random(hash(str(sorted((k, str(v)) for k, v in src.items()))) & 0xffffff)
@@ -259,3 +268,6 @@ def record(src):
 
 nontrivial = A.nontrivial
 features = A.features
+
+
+record = A.with_decoys(_record)
